@@ -1,1 +1,4 @@
-import SakuraVerif.Lemmas.Vlq
+import SakuraVerif.Props.C01
+import SakuraVerif.Props.C02
+import SakuraVerif.Props.C20
+import SakuraVerif.Gen.Tables
